@@ -28,6 +28,7 @@ static void body(const symx::Case &c, const std::string &line) {
         if (!perm.empty()) for (auto &ed : t.edges) { ed.first = perm[ed.first]; ed.second = perm[ed.second]; }
     }
     WeightMap wm = boost::get(boost::edge_weight, g);
+    e->case_json += ",\"layout\":\"" + address_order(g, eidx) + "\"";
 
     std::list<std::list<Edge>> cycles;
     Real ret;
